@@ -720,6 +720,33 @@ def _name_counter_probe_inproc():
     return None
 
 
+def _sklearn_shared_hypers_probe(s1, s2):
+    import reservoirpy
+    from reservoirpy.nodes import ScikitLearnNode
+    from sklearn.linear_model import SGDRegressor
+    rpy()
+    X = np.random.RandomState(0).rand(30, 3)
+    Y = X @ np.array([[1.0], [2.0], [3.0]])
+
+    def second(shared):
+        hyp = {"max_iter": 5, "tol": None}
+        reservoirpy.set_seed(s1)
+        n1 = ScikitLearnNode(SGDRegressor, model_hypers=hyp, name=uname("skh"))
+        reservoirpy.set_seed(s2)
+        n2 = ScikitLearnNode(SGDRegressor, model_hypers=hyp if shared else {"max_iter": 5, "tol": None}, name=uname("skh"))
+        n1.fit(X, Y)                       # an unrelated fit in between
+        n2.fit(X, Y)
+        return hyp, sha(np.asarray(n2.instances.coef_))
+    hyp, a = second(True)
+    _, b = second(False)
+    sc = {"check": "sklearn-shared-hypers", "seeds": [s1, s2]}
+    if "random_state" in hyp or a != b:
+        return _viol("sklearn:model_hypers-dict-mutated", "two ScikitLearnNodes built from one model_hypers dict: the caller's dict %s, and the second "
+                     "node's fit %s the fit of the same node built alone under the same global seed (they share one RandomState)"
+                     % ("received a random_state" if "random_state" in hyp else "is untouched", "differs from" if a != b else "equals"), sc, b, a)
+    return None
+
+
 def oracle(ctx, scale=1):
     rng = ctx.rng("oracle")
     rpy()
@@ -837,6 +864,23 @@ def oracle(ctx, scale=1):
                     viol.append(_viol("dataset:%s-default" % key, "%s with the default seed depends on history" % key, sc))
                 if _bytes_equal(a, e):
                     viol.append(_viol("different:" + key, "%s: seeds %d and %d give the same series" % (key, s, s2), sc))
+                # the default seed of the dataset module: a call without seed is the call with seed=<current default>, now and after
+                # every later datasets.set_seed (whatever was generated, or cached, before)
+                keep = _seed._DEFAULT_SEED
+                try:
+                    ds.set_seed(s)
+                    f0 = fn(None)
+                    ds.set_seed(s2)
+                    f1 = fn(None)
+                    ds.set_seed(s)
+                    f2 = fn(None)
+                    ev += 3
+                    if not _bytes_equal(f0, a) or not _bytes_equal(f1, e) or not _bytes_equal(f2, a):
+                        viol.append(_viol("dataset:%s-default-seed-ignored" % key, "%s() without seed after datasets.set_seed(%d) / set_seed(%d) / set_seed(%d) "
+                                          "is not the series of that seed (equal to seed=%d: %s, seed=%d: %s, back to seed=%d: %s)"
+                                          % (key, s, s2, s, s, _bytes_equal(f0, a), s2, _bytes_equal(f1, e), s, _bytes_equal(f2, a)), sc))
+                finally:
+                    _seed._DEFAULT_SEED = keep
         # (b2) every node class with a seed argument, global generator perturbed between the two builds
         for rep in range(ctx.n(4, 30) * scale):
             s = rng.choice(SEEDS)
@@ -885,6 +929,12 @@ def oracle(ctx, scale=1):
                     break
         # (b3) auto-name counter: the same script under set_seed, with auto-named nodes, at two positions of the name counter
         v = _name_counter_probe()
+        ev += 2
+        if v:
+            viol.append(v)
+        # (b4) two ScikitLearnNodes built from ONE model_hypers dict: each must take its random state from the global seed in force
+        # when IT is built (the node built second equals the same node built alone), and the caller's dict is left alone
+        v = _sklearn_shared_hypers_probe(rng.choice(SEEDS), rng.choice(SEEDS))
         ev += 2
         if v:
             viol.append(v)
